@@ -43,8 +43,8 @@ func spaces(res *vk.Result, all bool) []*opseq.Space {
 		c := c
 		u := universe()
 		depth := 3
-		if !all && !vk.Thorough() && c.Name() != "memory+memory" {
-			depth = 2 // quick: depth 3 on one configuration, depth 2 on the other five
+		if !all && !vk.Thorough() {
+			depth = 2 // quick: depth 2 on its six configurations; depth 3 is thorough's
 		}
 		out = append(out, &opseq.Space{
 			Name: c.Name(), Ops: Ops(u), Depth: depth, SigPrefix: "C18|" + c.Name(), WorkBase: i * 5,
@@ -68,6 +68,7 @@ func spaces(res *vk.Result, all bool) []*opseq.Space {
 func TestCheck(t *testing.T) {
 	defer vk.Cleanup()
 	res := vk.New("C18")
+	StartStallWatch()
 	res.Rule = "E2 opseq: every history of upload operations (pkg/client upload, raw multipart POST with 1 part / 3 parts / a corrupt part, raw PUT; 11 operations over a 3-blob universe) up to the depth bound, each replayed on a fresh in-process server built from a high-level configuration (serverinit.Load -> InstallHandlers -> HTTP listener) per storage x index cell; after every history the whole HTTP observation battery is compared with the reference map; a case is distinct/non-trivial when it reaches a distinct (set of present blobs, sequence of upload outcome classes)"
 	res.Assumptions = []string{
 		"the reference map (hs.RefMap) and Go's net/http client are correct",
@@ -80,7 +81,7 @@ func TestCheck(t *testing.T) {
 		return
 	}
 	runCold(res, tierConfs(), "", 0)
-	// Fair shares of the time budget: a space may run until now + remaining x (its number of histories / histories still to do), so that under
+	// Thorough tier: fair shares of the time budget (x1.25 slack): a space may run until now + remaining x (its number of histories / histories still to do), so that under
 	// time pressure every configuration still gets its shallow depths (opseq is breadth-first by depth) instead of
 	// the last configurations getting nothing; unused time rolls over to the later spaces.
 	sps := spaces(res, false)
@@ -98,8 +99,8 @@ func TestCheck(t *testing.T) {
 	}
 	for _, sp := range sps {
 		dl := vk.Deadline()
-		if rem := time.Until(dl); rem > 0 {
-			if share := time.Now().Add(time.Duration(float64(rem) * size(sp) / left)); share.Before(dl) {
+		if rem := time.Until(dl); rem > 0 && vk.Thorough() {
+			if share := time.Now().Add(time.Duration(1.25 * float64(rem) * size(sp) / left)); share.Before(dl) {
 				dl = share
 			}
 		}
